@@ -103,7 +103,7 @@ def _spill_edge_rule(ctx):
             return Adt(TREE, "Node", {"0": v, "1": Vec([build(k) for k in kids])})
         n = 0
         bad = []
-        for forest in _trees(("R", "S"), 4):
+        for forest in _trees(("R", "S"), 5 if ctx.tier == "thorough" else 4):
             for rootlab in ("R", "S"):
                 cnt["R"], cnt["S"] = 1, 1
                 rootv = regs[0] if rootlab == "R" else spills[0]
